@@ -183,6 +183,9 @@ pub fn c14_uncompact_args() {
         Ok(v) => {
             assert!(t == rx);
             assert!(v.len() == 1 && get_resolution(v[0]) == t);
+            // "returns a result that is itself valid": a malformed ID must not be passed through
+            assert!(spec_valid(v[0]));
+            kani::cover!(!spec_valid(x));
             core::mem::forget(v);
         }
         Err(_) => {
@@ -224,6 +227,10 @@ pub fn c14_uncompact_d1() {
 /// compact on N arbitrary u64 (not only valid cells), strictly increasing (WLOG given std's
 /// sort/dedup): terminates within the pass bound, no overflow in `cell + j·stride`, no OOB.
 fn compact_total<const N: usize>(lowres: bool) {
+    compact_total_class::<N>(lowres, false)
+}
+
+fn compact_total_class<const N: usize>(lowres: bool, clean: bool) {
     warm();
     #[cfg(felixpalmer_a5_rs_verif)]
     unsafe {
@@ -234,6 +241,10 @@ fn compact_total<const N: usize>(lowres: bool) {
     while i < N {
         if lowres {
             kani::assume(res_stub(input[i]) <= 1);
+        }
+        if clean {
+            // marker at bit 56, nothing below it: the ID is determined by its top 7 bits
+            kani::assume(input[i] & ((1u64 << 57) - 1) == (1u64 << 56));
         }
         if i > 0 {
             kani::assume(input[i - 1] < input[i]);
@@ -282,6 +293,17 @@ pub fn c14_compact_lowres5() {
     compact_total::<5>(true);
 }
 
+/// Five IDs with the marker at bit 56 and clean low bits, any top-6 code 0..63 (60..63 are not
+/// cells): the quintant sibling scan runs and `cell + j·stride` must not leave the 64-bit range.
+#[kani::proof]
+#[kani::unwind(14)]
+#[kani::stub(alloc::fmt::format, fmt_stub)]
+#[kani::stub(<[u64]>::sort_unstable, sort_noop)]
+#[kani::stub(a5::core::serialization::get_resolution, res_stub)]
+pub fn c14_compact_r1_clean5() {
+    compact_total_class::<5>(false, true);
+}
+
 // ---------------------------------------------------------------------------------------------
 // lonlat_to_cell: argument handling with the float leaves cut out.
 
@@ -320,18 +342,39 @@ fn lookup_body(r: i32) {
     let lon: f64 = kani::any();
     let lat: f64 = kani::any();
     kani::assume(lon.is_finite() && lat.is_finite());
+    let in_range = r >= -1 && r <= 29;
     match a5::lonlat_to_cell(LonLat::new(lon, lat), r) {
         Ok(id) => {
-            assert!(r >= -1 && r <= 29);
+            assert!(in_range);
             assert!(get_resolution(id) == r);
             assert!(spec_valid(id));
-            kani::cover!(true);
         }
         Err(_) => {
-            assert!(r < -1 || r > 29);
-            kani::cover!(true);
+            assert!(!in_range);
         }
     }
+    // reachability witness for the end of the call (either branch)
+    kani::cover!(in_range);
+    kani::cover!(!in_range);
+}
+
+fn lookup_body_concrete(r: i32) {
+    warm();
+    let lon: f64 = kani::any();
+    let lat: f64 = kani::any();
+    kani::assume(lon.is_finite() && lat.is_finite());
+    let in_range = r >= -1 && r <= 29;
+    match a5::lonlat_to_cell(LonLat::new(lon, lat), r) {
+        Ok(id) => {
+            assert!(in_range);
+            assert!(get_resolution(id) == r);
+            assert!(spec_valid(id));
+        }
+        Err(_) => {
+            assert!(!in_range);
+        }
+    }
+    kani::cover!(true);
 }
 
 /// ∀ finite point, ∀ i32 resolution, first probe hits: Ok(id) ⇒ res(id) = r ∈ −1..29; else Err.
@@ -354,7 +397,7 @@ macro_rules! lookup_lowres {
         #[kani::stub(a5::core::cell::lonlat_to_estimate, estimate_stub)]
         #[kani::stub(a5::core::cell::a5cell_contains_point, contains_hit_stub)]
         pub fn $name() {
-            lookup_body($r);
+            lookup_body_concrete($r);
         }
     };
 }
